@@ -304,6 +304,7 @@ func parseContractFile(path string, extra ...string) (*ContractFile, error) {
 		lines[i] = expand(lines[i])
 	}
 	var cur *Contract
+	var defProps []string // default properties of the clauses of the block being read
 	for i, l := range lines {
 		ln := lineNos[i]
 		fields := strings.Fields(l)
@@ -340,6 +341,7 @@ func parseContractFile(path string, extra ...string) (*ContractFile, error) {
 			if k := strings.Index(l, "props:"); k >= 0 {
 				cur.Props = strings.FieldsFunc(l[k+6:], func(r rune) bool { return r == ',' || r == ' ' })
 			}
+			defProps = cur.Props
 			cf.Groups[fields[1]] = cur
 			continue
 		case "pool":
@@ -363,8 +365,20 @@ func parseContractFile(path string, extra ...string) (*ContractFile, error) {
 			if cur.Kind != "func" {
 				key = cur.Kind + " " + cur.Name
 			}
-			if _, dup := cf.ByName[key]; dup {
-				return nil, fmt.Errorf("line %d: duplicate contract for %s", ln, key)
+			defProps = props
+			if prev, dup := cf.ByName[key]; dup {
+				// a second block for the same function adds its clauses to the first (clauses without
+				// an explicit [Cxx] belong to the properties named in the header of their own block)
+				if prev.Kind != cur.Kind || prev.Assumed {
+					return nil, fmt.Errorf("line %d: duplicate contract for %s", ln, key)
+				}
+				for _, p := range props {
+					if !hasProp(prev.Props, p) {
+						prev.Props = append(prev.Props, p)
+					}
+				}
+				cur = prev
+				continue
 			}
 			cf.ByName[key] = cur
 			cf.Order = append(cf.Order, cur)
@@ -387,7 +401,7 @@ func parseContractFile(path string, extra ...string) (*ContractFile, error) {
 			body = strings.TrimSpace(l[strings.Index(l, fields[1])+len(fields[1]):])
 		}
 		if m := clauseRe.FindStringSubmatch(body); m != nil {
-			props := cur.Props
+			props := defProps
 			if m[2] != "" {
 				props = strings.FieldsFunc(strings.Trim(m[2], "[]"), func(r rune) bool { return r == ',' || r == ' ' })
 			}
@@ -418,7 +432,7 @@ func parseContractFile(path string, extra ...string) (*ContractFile, error) {
 			}
 			continue
 		}
-		atProps := cur.Props
+		atProps := defProps
 		if strings.HasPrefix(fields[0], "atcall[") && strings.HasSuffix(fields[0], "]") {
 			// atcall[Cxx,Cyy] CALLEE EXPR: the assertion belongs to these properties only
 			atProps = strings.FieldsFunc(fields[0][len("atcall["):len(fields[0])-1], func(r rune) bool { return r == ',' || r == ' ' })
@@ -448,7 +462,7 @@ func parseContractFile(path string, extra ...string) (*ContractFile, error) {
 			if cur.GhostSet == nil {
 				cur.GhostSet = map[string]*CExpr{}
 			}
-			cur.GhostSet[fields[1]] = &CExpr{Text: rest, ast: e, Line: ln, Props: cur.Props}
+			cur.GhostSet[fields[1]] = &CExpr{Text: rest, ast: e, Line: ln, Props: defProps}
 		case "arith":
 			cur.ArithChecked = true
 		case "strings":
@@ -1216,6 +1230,21 @@ func (fx *FnExec) evalCallC(x *ast.CallExpr, env *evalEnv) (cval, error) {
 		}
 		switch a.Sort {
 		case "Slice":
+			// a slice value read from memory is well formed (0 <= len <= cap): instance of the type
+			// invariant for this term, unless it mentions a quantified variable
+			if a.T != nil && strings.HasPrefix(a.S, "(select ") {
+				free := true
+				for name, bv := range env.bound {
+					if strings.Contains(a.S, bv.S) || strings.Contains(a.S, name) {
+						free = false
+					}
+				}
+				if free {
+					if inv := fx.typeInvariant(a.T, a.S); inv != "true" {
+						fx.assumeGlobal(inv)
+					}
+				}
+			}
 			return cval{S: "(s.len " + a.S + ")", Sort: "Int", T: types.Typ[types.Int]}, nil
 		case "Str":
 			return cval{S: "(slen " + a.S + ")", Sort: "Int", T: types.Typ[types.Int]}, nil
